@@ -125,6 +125,10 @@ func init() {
 			runBytes(it, res)
 			return json.Marshal(res)
 		}
+		if it.Kind == "byz" {
+			runByz(it, res)
+			return json.Marshal(res)
+		}
 		seen := map[string]bool{}
 		viol := func(key, what string, rp map[string]interface{}) {
 			if seen[key] {
@@ -168,6 +172,7 @@ func init() {
 		// one attempt = deliver the hostile message; returns false if the instance must be rebuilt
 		attempt := func(label string, deliver func(c *sim.Cluster) error) {
 			res.Attempts++
+			fmt.Fprintf(os.Stderr, "ATTEMPT %s\n", label)
 			c := x.C
 			before := c.Digest()
 			cd := commitsDigest(c.Nodes[0])
@@ -290,16 +295,24 @@ func init() {
 		for b := 0; b < 16; b++ {
 			items = append(items, HostileItem{State: "mid", Kind: "bytes", From: b, To: 16})
 		}
+		nb := len(byzCases())
+		for from := 0; from < nb; from += 3 {
+			items = append(items, HostileItem{State: "mid", Kind: "byz", From: from, To: from + 3})
+		}
 		_ = th
 		raw := make([]json.RawMessage, len(items))
 		for i, it := range items {
 			raw[i], _ = json.Marshal(it)
 		}
 		bud := budget(map[bool]time.Duration{false: 200 * time.Second, true: 40 * time.Minute}[th])
-		pool := explore.Pool{Mode: "hostile", Deadline: time.Now().Add(bud)}
+		pool := explore.Pool{Mode: "hostile", Deadline: time.Now().Add(bud), ItemTimeout: 4 * time.Minute}
 		tot := &HostileResult{Outcomes: map[string]int{}}
 		var crashes []string
 		handed := pool.Run(raw, func(r explore.PoolResult) {
+			if strings.HasPrefix(r.Crashed, "TIMEOUT") {
+				tot.Viol = append(tot.Viol, ev.Violation{Property: "C08", Key: "hang", What: "the node did not return from processing hostile input: " + lastAttempt(r.Crashed), Replay: map[string]interface{}{"worker_mode": "hostile", "item": json.RawMessage(raw[r.Index])}})
+				return
+			}
 			if r.Crashed != "" || r.Err != "" {
 				crashes = append(crashes, string(raw[r.Index])+": "+r.Crashed+r.Err)
 				return
@@ -342,7 +355,7 @@ func init() {
 			samples = append(samples, s)
 		}
 		cov["samples"] = samples
-		cov["rule"] = "(A) valid SyncRequest / EagerSyncRequest / FastForwardRequest / JoinRequest built in the current state, and valid SyncResponse / EagerSyncResponse / FastForwardResponse / JoinResponse captured from an honest peer, with every single field (recursively, by reflection over the exported structure: strings, ints, byte slices, slices incl. nil elements, maps incl. unknown / re-encoded keys, pointers) replaced by every value of the hostile grammar, delivered to node 0 in the states fresh / mid-history with blocks / suspended / catching-up (requests through the real processRPC, responses through the node's own pull, push, fastForward, join against a hostile responder). (B) byte streams on the real NetworkTransport connection handler over a pipe with the real processRPC as consumer: every prefix of every valid encoded request, single-byte substitutions from {0x00,'\"','{','[','}',0xff} at every position of the short requests, unknown type bytes, wrong-shaped JSON. Oracle: no panic crosses the recover boundary placed where the real code has none; blocks already delivered unchanged; afterwards valid exchanges succeed and reach the same cluster state as on a twin that never saw the hostile input"
+		cov["rule"] = "(A) valid SyncRequest / EagerSyncRequest / FastForwardRequest / JoinRequest built in the current state, and valid SyncResponse / EagerSyncResponse / FastForwardResponse / JoinResponse captured from an honest peer, with every single field (recursively, by reflection over the exported structure: strings, ints, byte slices, slices incl. nil elements, maps incl. unknown / re-encoded keys, pointers) replaced by every value of the hostile grammar, delivered to node 0 in the states fresh / mid-history with blocks / suspended / catching-up (requests through the real processRPC, responses through the node's own pull, push, fastForward, join against a hostile responder). (B) byte streams on the real NetworkTransport connection handler over a pipe with the real processRPC as consumer: every prefix of every valid encoded request, single-byte substitutions from {0x00,'\"','{','[','}',0xff} at every position of the short requests, unknown type bytes, wrong-shaped JSON. (C) well-formed messages of a Byzantine validator: events re-signed with a validator key whose self-parent is that validator's last / second-to-last / third-to-last known event (forks) and whose index is correct, off by one, 0, -1, huge or the next free one, delivered as an eager-sync request and as a sync response; after each, valid exchanges must succeed as on a twin and the cluster must reach quiescence. Oracle: no panic crosses the recover boundary placed where the real code has none; blocks already delivered unchanged; afterwards valid exchanges succeed and reach the same cluster state as on a twin that never saw the hostile input"
 		rep.Assumptions = []string{"'all byte strings' is covered up to the stated grammar; resource exhaustion is not modelled", "a hostile message that is a valid message (state changes) is not an error; the instance is rebuilt afterwards"}
 		return rep.Finish()
 	}
@@ -599,4 +612,150 @@ func trunc200(b []byte) []byte {
 		return b[:200]
 	}
 	return b
+}
+
+// ---------------------------------------------------------------------------
+// (C) well-formed messages from a Byzantine validator: events re-signed with a validator's own key
+// (forks, wrong / huge / duplicate indexes, replays), delivered as eager-sync requests and as sync
+// responses. After every such message the node must still process valid exchanges and commit new work.
+
+type byzCase struct {
+	name string
+	mk   func(c *sim.Cluster) (*hg.WireEvent, uint32, bool)
+}
+
+func byzCases() []byzCase {
+	var cases []byzCase
+	// creator 1 (the sender) and creator 2 (somebody else's key, held by the adversary too)
+	for _, creator := range []int{1, 2} {
+		for _, spBack := range []int{0, 1, 2} { // self-parent = creator's last event known to the target, one before, two before
+			for _, idx := range []string{"sp+1", "sp+2", "0", "huge", "-1", "last+1"} {
+				if spBack == 0 && (idx == "sp+1" || idx == "last+1") {
+					continue // an admissible event: the adversary equivocating with a validator key it holds is outside the property
+				}
+				cr, sb, ix := creator, spBack, idx
+				cases = append(cases, byzCase{
+					name: fmt.Sprintf("event of validator %d re-signed with self-parent = its %s known event and index %s", cr, []string{"last", "second-to-last", "third-to-last"}[sb], ix),
+					mk: func(c *sim.Cluster) (*hg.WireEvent, uint32, bool) {
+						t := c.Nodes[0]
+						pub := sim.PubHex(cr)
+						l, err := t.Store.ParticipantEvents(pub, -1)
+						if err != nil || len(l) < 3 {
+							return nil, 0, false
+						}
+						spHex := l[len(l)-1-sb]
+						sp, err := t.Store.GetEvent(spHex)
+						if err != nil {
+							return nil, 0, false
+						}
+						index := sp.Index() + 1
+						switch ix {
+						case "sp+2":
+							index = sp.Index() + 2
+						case "0":
+							index = 0
+						case "huge":
+							index = 1 << 40
+						case "-1":
+							index = -1
+						case "last+1":
+							index = len(l)
+						}
+						op := ""
+						if o, err := t.Store.LastEventFrom(sim.PubHex(0)); err == nil {
+							op = o
+						}
+						e := hg.NewEvent([][]byte{[]byte("byz")}, nil, nil, []string{spHex, op}, sim.PubOf(cr), index)
+						e.Body.Timestamp = sim.BaseTime + 999
+						if err := e.Sign(sim.Key(cr)); err != nil {
+							return nil, 0, false
+						}
+						if err := t.Node.VHashgraph().SetWireInfo(e); err != nil {
+							return nil, 0, false
+						}
+						w := e.ToWire()
+						return &w, c.Nodes[cr].Peer.ID(), true
+					},
+				})
+			}
+		}
+	}
+	return cases
+}
+
+func runByz(it HostileItem, res *HostileResult) {
+	cases := byzCases()
+	res.Total = len(cases)
+	viol := func(key, what string, rp map[string]interface{}) {
+		for _, v := range res.Viol {
+			if v.Key == key {
+				return
+			}
+		}
+		res.Viol = append(res.Viol, ev.Violation{Property: "C08", Key: key, What: what, Replay: rp})
+	}
+	cont := []sched.Action{{K: "G", A: 1, B: 0}, {K: "T", A: 0}, {K: "G", A: 0, B: 2}, {K: "G", A: 2, B: 0}, {K: "G", A: 0, B: 1}, {K: "G", A: 1, B: 0}}
+	for k := it.From; k < len(cases) && k < it.To; k++ {
+		bc := cases[k]
+		for _, via := range []string{"eager-sync request", "sync response"} {
+			x := c08Build(it.State)
+			c := x.C
+			w, from, ok := bc.mk(c)
+			if !ok {
+				x.Close()
+				continue
+			}
+			res.Attempts++
+			fmt.Fprintf(os.Stderr, "ATTEMPT byz %s via %s\n", bc.name, via)
+			cd := commitsDigest(c.Nodes[0])
+			rp := map[string]interface{}{"state": it.State, "kind": "byz", "case": bc.name, "via": via}
+			if via == "eager-sync request" {
+				c.ProcessRPC(0, "byz eager", &net.EagerSyncRequest{FromID: from, Events: []hg.WireEvent{*w}})
+			} else {
+				plan := &sim.Plan{MutateResp: func(kind string, resp interface{}) interface{} {
+					if r, ok := resp.(*net.SyncResponse); ok {
+						cp := *r
+						cp.FromID = from
+						cp.Events = []hg.WireEvent{*w}
+						return &cp
+					}
+					return resp
+				}}
+				c.Pull(0, int(map[bool]int{true: 1, false: 2}[from == c.Nodes[1].Peer.ID()]), plan)
+			}
+			if c.Panic != "" {
+				res.Panics++
+				viol("panic:"+panicKey(c.Panic), fmt.Sprintf("%s via %s: panic: %s", bc.name, via, firstLines(c.Panic, 1)), rp)
+				x.Close()
+				continue
+			}
+			if d := commitsDigest(c.Nodes[0]); d != cd && !strings.HasPrefix(d, cd) {
+				viol("delivered-blocks-changed", bc.name+" changed delivered blocks", rp)
+			}
+			// afterwards valid exchanges must work (they do on a twin that never saw the message) and new work commits
+			twin := c08Build(it.State)
+			for _, a := range cont {
+				e1 := x.Step(a)
+				e2 := twin.Step(a)
+				if e1 != nil && e2 == nil {
+					viol("valid-exchange-fails-afterwards", fmt.Sprintf("after (%s, delivered as %s) the valid step %s fails with %v; on a twin that never saw it it succeeds", bc.name, via, a, e1), rp)
+					break
+				}
+			}
+			sr := x.FairSuffix(40)
+			if !sr.Quiescent && !x.Dead() {
+				if st := twin.FairSuffix(40); st.Quiescent {
+					viol("no-progress-afterwards", fmt.Sprintf("after (%s, delivered as %s) the cluster does not become quiescent within 40 fair cycles (%s); a twin that never saw it does", bc.name, via, sr.Reason), rp)
+				}
+			}
+			res.Rejected++
+			res.Outcomes["byz: handled"]++
+			res.Twins++
+			if len(res.Samples) < 4 {
+				res.Samples = append(res.Samples, "byz: "+bc.name+" via "+via)
+			}
+			twin.Close()
+			x.Close()
+		}
+	}
 }
